@@ -175,3 +175,46 @@ func (n *NodeSpec) style(i int) byte {
 	}
 	return n.Styles[i]
 }
+
+// outcomeAt returns the scripted outcome behind a model event (a *_start
+// event), materialising the "last entry repeats" lists so that changing it
+// affects exactly that invocation. nil when the invocation is unscripted.
+func (sc *Scn) outcomeAt(e MEv) *Outcome {
+	n := sc.Nodes[e.N]
+	if len(n.Visits) == 0 {
+		n.Visits = []Visit{{}}
+	}
+	for len(n.Visits) <= e.V {
+		b, _ := json.Marshal(n.Visits[len(n.Visits)-1])
+		var c Visit
+		json.Unmarshal(b, &c)
+		n.Visits = append(n.Visits, c)
+	}
+	vs := &n.Visits[e.V]
+	grow := func(list *[]Outcome, a int) *Outcome {
+		if len(*list) == 0 {
+			*list = []Outcome{{}}
+		}
+		for len(*list) < a {
+			*list = append(*list, (*list)[len(*list)-1])
+		}
+		return &(*list)[a-1]
+	}
+	switch e.Kind {
+	case "prep_start":
+		return &vs.Prep
+	case "post_start":
+		return &vs.Post
+	case "exec_start":
+		if e.I > 0 {
+			return grow(&vs.Items[e.I-1].Exec, e.A)
+		}
+		return grow(&vs.Exec, e.A)
+	case "fb_start":
+		if e.I > 0 {
+			return vs.Items[e.I-1].Fb
+		}
+		return vs.Fb
+	}
+	return nil
+}
